@@ -368,6 +368,11 @@ def _(c):
                             [(np.asarray(p, dtype=float).tobytes(), p.event.info if p.event else None)
                              for p in obj.iter(start=d0, stop=d0 + timedelta(seconds=3000), step=timedelta(seconds=600), **({} if hill else {"listeners": [l]}))])
     c.ensure("same_as_fresh", probe(src, lis) == probe(fresh, NodeListener()))
+    if not hill:
+        # the same listener again, over an explicit list of dates that starts on the other side of the node from where the previous pass ended
+        by_dates = lambda obj, l: [(p.date._d, round(p.date._s, 6), p.event.info if p.event else None)
+                                   for p in obj.iter(dates=[d0 + timedelta(seconds=200.0 + 100 * k) for k in range(6)], listeners=[l])]
+        c.ensure("same_as_fresh.dates_driven", by_dates(src, lis) == by_dates(fresh, NodeListener()))
     if prop not in ("ephem",):
         # the propagator object used directly, several times, and shared with a second orbit
         p = src.propagator
@@ -383,3 +388,93 @@ def _(c):
         c.ensure("shared_propagator_rebinds", np.asarray(src.propagate(d1), dtype=float).tobytes() == a)
     if before is not None:
         c.ensure("initial_orbit_untouched", bool(np.array_equal(np.asarray(src, dtype=float), before) and src.date == d0))
+
+
+# ---------------------------------------------------------------------------------------------
+# listeners along an iteration: reset first, events before the sample that closes their interval
+# ---------------------------------------------------------------------------------------------
+
+class _Sample:
+    """a recorded / interpolated state of which only the date and the identity matter"""
+
+    def __init__(self, date, tag, parent=None):
+        self.date, self.tag, self.parent, self.event = date, tag, parent, None
+
+    def copy(self):
+        return _Sample(self.date, self.tag, parent=self)
+
+    def __repr__(self):
+        return f"<sample {self.tag}>"
+
+
+def listener_stream(c, pid, who):
+    """runs the real Ephem.iter / AnalyticalPropagator.iter with recorder listeners and returns (log, output, samples, L): shared by C08 (reset) and C10 (ordering)"""
+    log = []
+    L = [object()]
+    ev = {}
+
+    def listen(self, orb, listeners):
+        log.append(("listen", orb, listeners))
+        n = c.choice(f"events_at_{len([x for x in log if x[0] == 'listen'])}", [0, 1, 2])
+        ev[id(orb)] = [("event", orb, j) for j in range(n)]
+        return list(ev[id(orb)])
+    stubs = {"beyond.propagators.listeners:Speaker.clear_listeners": lambda self, listeners: log.append(("clear", listeners)),
+             "beyond.propagators.listeners:Speaker.listen": listen}
+    us = [0, 60, 120]
+    if who == "ephem":
+        mode = c.choice("mode", ["dates", "own_step", "other_step"])
+        w = c.world(stubs=stubs, names={EPH: {"timedelta": __import__("pyvc.adt", fromlist=["x"]).sym_timedelta}})
+        recorded = [_Sample(SymDateUs(t), f"rec{t}") for t in us]
+        eph = w.obj(f"{EPH}:Ephem", _orbits=list(recorded))
+        made = []
+
+        def propagate(d):
+            made.append(_Sample(d, f"interp{len(made)}"))
+            return made[-1]
+        object.__getattribute__(eph, "__dict__")["propagate"] = propagate
+        if mode == "dates":
+            out = list(eph.iter(dates=[SymDateUs(t) for t in us], listeners=L))
+            samples = made
+        elif mode == "own_step":
+            out = list(eph.iter(listeners=L))
+            samples = recorded
+        else:
+            out = list(eph.iter(start=SymDateUs(0), stop=SymDateUs(120), step=SymTimedeltaUs(60), listeners=L))
+            samples = made
+    else:
+        mode = c.choice("mode", ["dates", "range"])
+        made = []
+        w = c.world(stubs=stubs, names={BASE: {"Date": _DateStub([], [SymDateUs(t) for t in us]), "timedelta": __import__("pyvc.adt", fromlist=["x"]).sym_timedelta}})
+        prop = w.obj(f"{BASE}:AnalyticalPropagator", orbit=_Sample(SymDateUs(0), "bound"))
+
+        def propagate(d):
+            made.append(_Sample(d, f"prop{len(made)}"))
+            return made[-1]
+        object.__getattribute__(prop, "__dict__")["propagate"] = propagate
+        if mode == "dates":
+            out = list(prop.iter(dates=[SymDateUs(t) for t in us], listeners=L))
+        else:
+            out = list(prop.iter(start=SymDateUs(0), stop=SymDateUs(120), step=SymTimedeltaUs(60), listeners=L))
+        samples = made
+    return log, out, samples, L, ev, mode
+
+
+def _listeners_contract(who, funcs):
+    @contract("C08", f"listeners.{who}", funcs=funcs, level="proof",
+              assumptions=["listen() / clear_listeners() abstracted as recorders (their own contracts: C10.check, C10.clear)", "propagate(date) returns a state dated `date`"])
+    def _(c):
+        """proved: whichever way the iteration is driven (explicit dates, the ephemeris' own step, another step / a date range), the listeners given to it are reset exactly
+        once, before the first sample is examined, and every sample is shown to the listeners exactly once, in order -- so nothing a listener remembers from an earlier
+        iteration can reach this one"""
+        if not c.symbolic:
+            return
+        log, out, samples, L, ev, mode = listener_stream(c, "C08", who)
+        c.ensure("three_samples", len(samples) == 3)
+        c.ensure("reset_first_and_once", len(log) > 0 and log[0][0] == "clear" and log[0][1] is L and sum(1 for x in log if x[0] == "clear") == 1)
+        listened = [x[1] for x in log if x[0] == "listen"]
+        c.ensure("each_sample_listened_once_in_order", len(listened) == 3 and all(a is b for a, b in zip(listened, samples)) and all(x[2] is L for x in log if x[0] == "listen"))
+    return _
+
+
+_listeners_contract("ephem", [f"{EPH}:Ephem.iter"])
+_listeners_contract("analytical", [f"{BASE}:AnalyticalPropagator.iter"])
